@@ -310,6 +310,23 @@ def wire_rules(rep, mod, repo, leaf, roots, family):
             rep.inst('R-COUNT16', fn, side + ':count-fields-are-u16', not bad, (bad[0]['where'] if bad else where),
                      None if not bad else 'a container count is transferred as %d bytes; the wire format fixes a 16 bit '
                      'count (%s)' % (bad[0]['len'][1], helper_chain(bad[0])), fact=len(cnt))
+        # ... and it is used as an UNSIGNED quantity: a count that is sign-extended on its way to the loop bound turns
+        # negative for 32768..65535 elements (the loop then reads nothing and the following fields are decoded from the
+        # element bytes)
+        def signed_use(t, depth=0):
+            if not isinstance(t, tuple) or depth > 12:
+                return False
+            if t and t[0] == 'sext' and len(t) == 3:
+                return True
+            return any(signed_use(x, depth + 1) for x in t[1:])
+        for side, gs in (('writer', gw), ('reader', gr)):
+            loops = [t for g in gs for t in all_loops(g.raw_tokens)]
+            if not loops:
+                continue
+            bad = [t for t in loops if signed_use(t['count'])]
+            rep.inst('R-COUNT16', fn, side + ':count-is-used-unsigned', not bad, (bad[0].get('where') if bad else where),
+                     None if not bad else 'the element count that bounds this loop is sign-extended (read into a signed 16 bit '
+                     'variable): containers with 32768..65535 elements yield a negative trip count', fact=len(loops))
         unknown = [t for g in gw + gr for t in all_loops(g.raw_tokens) if t['count'][0] == 'unknown-count']
         for t in unknown:
             raise AnalysisBroken('%s: loop at %s has no recognised trip count' % (fn, t.get('where')))
